@@ -15,6 +15,10 @@ package flag
 //@        && (isUnsignedKind(kind(vtype(val))) ==> isUnsignedKind(kind(vtype(target))))
 //@        && (isFloatKind(kind(vtype(val))) ==> isFloatKind(kind(vtype(target))))
 //@        && (isComplexKind(kind(vtype(val))) ==> isComplexKind(kind(vtype(target))))
+//@   at call *.OverflowFloat:
+//@     assert C12_the_float_range_is_that_of_the_leaf_not_of_the_flag: arg0 == target
+//@   at call *.OverflowComplex:
+//@     assert C12_the_complex_range_is_that_of_the_leaf_not_of_the_flag: arg0 == target
 //@   ensures C12_signed_value_out_of_range_iff: isSignedKind(kind(vtype(val))) ==>
 //@        (o <==> !(sLo(kindBits(kind(vtype(target)))) <= vintH(rh, val) && vintH(rh, val) <= sHi(kindBits(kind(vtype(target))))))
 //@   ensures C12_unsigned_value_out_of_range_iff: isUnsignedKind(kind(vtype(val))) && kind(vtype(val)) != Uintptr ==> (o <==> !(vuintH(rh, val) <= uHi(kindBits(kind(vtype(target))))))
